@@ -12,6 +12,20 @@ HEADER = ('From Coq Require Import List NArith. Import ListNotations.\n'
 KIND = {'match': 'KMatch', 'let': 'KLet', 'iflet': 'KIfLet'}
 
 
+def expansion(p):
+    """number of or-free patterns a source pattern expands to (the model expands or-patterns; its cost grows with this)"""
+    k = p[0]
+    if k in ('wild', 'var'):
+        return 1
+    if k == 'or':
+        return sum(expansion(q) for q in p[1])
+    n = 1
+    subs = p[2] if k == 'variant' else [q for _, q in p[1] if q is not None] if k == 'object' else p[1]
+    for q in subs:
+        n *= expansion(q)
+    return n
+
+
 def case_gallina(env, c, flagged):
     return 'mkCase %s %d %s [%s] %s' % (G.env_gallina(env), c['ty'], KIND[c['kind']],
                                         '; '.join(G.to_abstract(env, p, c['ty']) for p in c['pats']),
@@ -125,6 +139,12 @@ def run(tier, seed, replay=None):
                 elif not inst:
                     ck.property_failure('reported counterexample `%s` denotes no value' % cex_text, inp)
     # ---- layer B: model vs implementation verdicts
+    # cases whose or-patterns expand to more than 3000 or-free rows are left to the value-enumeration oracle above (the
+    # model's evaluation time is exponential in the nesting of or-patterns; counted, not hidden)
+    big = [x for x in allcases if max([expansion(p) for p in x[2]['pats']] + [1]) > 3000]
+    if big:
+        ck.count('layer-B-skipped:or-expansion>3000', len(big))
+        allcases = [x for x in allcases if max([expansion(p) for p in x[2]['pats']] + [1]) <= 3000]
     nshard = max(16, (len(allcases) + 399) // 400)     # at most ~400 cases per coqc run
     jobs = []
     for si in range(nshard):
